@@ -89,7 +89,10 @@ def handbuilt_case(ctx, r):
     kind, n, ev, ik = r["kind"], r["n"], r["events"], r["index"]
     index = make_index(ik, n)
     p = r.get("p", 1)
-    columns = pd.Index(["zeta", "alpha", "mid", "b2", "a1", "q"][:p]) if r.get("columns") == "strings" else pd.RangeIndex(p)
+    from vf.spec import column_labels
+
+    columns = pd.RangeIndex(p) if r.get("columns", "default") == "default" else pd.Index(
+        column_labels(r["columns"], p))
     ctx.case()
     ctx.stat("handbuilt_outputs")
     ctx.stat(f"handbuilt[{kind}]")
@@ -123,6 +126,10 @@ def handbuilt_case(ctx, r):
     if not all(pd.api.types.is_integer_dtype(t) for t in dense.dtypes):
         ctx.violation(sub, "dense-dtype", f"{label}: dense dtypes {dense.dtypes.tolist()}", r)
     want_cols = ["labels"] if kind != "subset" else [f"labels_{c}" for c in columns]
+    if kind == "subset" and dense.shape[1] != p:
+        ctx.violation(sub, "dense-columns", f"{label}: dense output has {dense.shape[1]} columns for {p} "
+                      f"variables (column labels {list(columns)})", r)
+        return
     if list(dense.columns) != want_cols:
         ctx.violation(sub, "dense-columns", f"{label}: dense columns {list(dense.columns)} != {want_cols}", r)
     try:
@@ -176,7 +183,7 @@ def zoo_recipe(rng, tier):
             "noise"][int(rng.integers(6))]
     X, _ = gen_data(rng, n, p, kind)
     return {"kind": "zoo", "det": spec, "X": X, "index": INDEX_KINDS[int(rng.integers(5))],
-            "columns": "strings" if rng.random() < 0.5 else "default"}
+            "columns": ["default", "strings", "duplicate", "printsame"][int(rng.integers(4))]}
 
 
 def zoo_case(ctx, r):
@@ -237,7 +244,7 @@ def run(ctx):
         for ik in INDEX_KINDS:
             r = dict(jobs[i], index=ik)
             if r["kind"] == "subset":
-                r["columns"] = "strings" if (i + len(ik)) % 2 else "default"
+                r["columns"] = ["default", "strings", "duplicate", "printsame"][(i + len(ik)) % 4]
             exec_case(ctx, r)
     ctx.sample({"handbuilt_example": jobs[min(len(jobs) - 1, 37 + ctx.shard)]})
     # random (non-exhaustive) hand-built outputs beyond the enumerated bounds: wider p, longer n
@@ -254,7 +261,8 @@ def run(ctx):
                 for _ in iv]
         kind = ["subset", "subset", "anomaly", "change"][int(rng.integers(4))]
         r = {"kind": kind, "n": n, "p": p if kind == "subset" else 1, "index": INDEX_KINDS[int(rng.integers(5))],
-             "columns": "strings" if (rng.random() < 0.5 and p <= 6) else "default", "random": True}
+             "columns": ["default", "strings", "duplicate", "printsame"][int(rng.integers(4))] if p <= 6
+             else "default", "random": True}
         if kind == "subset":
             r.update(events=iv, cols=cols)
         elif kind == "anomaly":
